@@ -1,5 +1,5 @@
 """C10 — backend responses are relayed faithfully; broken ones never look complete."""
-import itertools, struct
+import collections, itertools, os, select, socket, struct, threading, time
 from .. import common as C
 
 MANIFEST = dict(
@@ -13,10 +13,13 @@ MANIFEST = dict(
          "round trips, truncated/malformed never complete; tied to the C by differential runs of the "
          "real gw_backend.c/mod_fastcgi.c/http-header-glue.c/http_chunk.c/response.c/h1.c code over a "
          "socketpair (every split of short responses, every cut point, all end kinds) under ASan/UBSan, "
+         "and by running the real sanitized lighttpd (mod_proxy, mod_scgi, mod_fastcgi; h1.c and h2.c) against "
+         "scripted backends over TCP with HTTP/1.0, HTTP/1.1 and HTTP/2 clients, "
          "with an independent strict client-side parser as property oracle",
     note="trusted: Lean kernel; hand-written models validated by the h_beresp correspondence; the "
          "harness-owned connection state machine stub (mirrors connection_state_machine_loop / the h2 "
-         "per-stream loop; HTTP/2 is observed at the level of logical frames, h2.c itself is not run); "
+         "per-stream loop; in the harness HTTP/2 is observed at the level of logical frames, h2.c itself runs "
+         "only in the end-to-end stream); "
          "socket behaviour beyond read() results, temp-file spill, authorizer/upgrade/X-Sendfile/"
          "local-redirect modes are outside the model",
     tech="Lean 4 proof over hand-written model + differential correspondence (in-process C harness)",
@@ -103,10 +106,13 @@ FIELD_POOL = [(b"Content-Type", [b"text/plain", b"text/html; charset=utf-8", b"a
               (b"Location", [b"/there", b"http://ex.org/x"]), (b"WWW-Authenticate", [b"Basic realm=\"r\""]),
               (b"X-Long-Header-Name-For-Testing", [b"v"]), (b"Content-Language", [b"en"]),
               (b"Expires", [b"0"]), (b"Pragma", [b"no-cache"]), (b"Age", [b"1"])]
+KBPS_VALUES = [b"100", b"0", b"-1", b"-5", b"9007199254740993", b"9223372036854775807", b"-9223372036854775808",
+               b"99999999999999999999", b"abc", b" 7"]
 ODD_FIELDS = [(b"Connection", [b"close", b"keep-alive", b"Close", b"foo, close", b"closed", b"upgrade"]),
               (b"Upgrade", [b"websocket", b"h2c"]), (b"HTTP2-Settings", [b"AAAA"]),
               (b"Status", [b"201", b"404 Not Found", b"abc", b"99", b"2000", b"200x"]),
               (b"X-Sendfile", [b"/etc/passwd"]), (b"X-LIGHTTPD-send-file", [b"/x"]), (b"X-Lighttpd-Foo", [b"1"]),
+              (b"X-LIGHTTPD-KBytes-per-second", KBPS_VALUES),
               (b"Content-Length", [b"3", b"+4", b"5 ", b"abc", b"", b"99999999999999999999", b"0"]),
               (b"Transfer-Encoding", [b"chunked", b"gzip"]), (b"Bad Name", [b"v"]), (b"Bad ", [b"v"]),
               (b"Empty", [b""]), (b"", [b"v"]), (b"Keep-Alive", [b"timeout=5"])]
@@ -685,6 +691,9 @@ def oracle(line, out):
         if cv["complete"] is not True:
             if cv.get("framing") == "cl" and backend_bad_cl(resp):
                 return M_KA_BADCL
+            if cv.get("framing") == "cl" and good and ref.get("framing") == "cl" and ref.get("complete"):
+                return M_RELAY + ("fewer body bytes than the Content-Length the backend announced and delivered, "
+                                  "on a connection that is kept alive")
             return M_KA_CL if cv.get("framing") == "cl" else M_KA_INC
         if cv["excess"]:
             return M_KA_EXC
@@ -973,6 +982,31 @@ def gen_big(ctx):
         recs = fcgi_rec(6, b"Status: 200\r\n\r\n") + b"".join(fcgi_rec(6, body[i:i + 60000], 5) for i in range(0, n, 60000)) \
             + fcgi_rec(6, b"") + fcgi_rec(3, b"\0" * 8)
         lines.append(line("fcgi", 11, 0, "G", "eof", [recs[i:i + 3000] for i in range(0, len(recs), 3000)]))
+        if n >= 70000:
+            # Content-Length body that spills into a temp file and then keeps arriving in small reads
+            # (lighttpd accumulates those before appending to the temp file: the remaining-length counter
+            # must come out the same), buffered and streaming
+            for be, head in (("proxy", b"HTTP/1.1 200 OK\r\nContent-Length: %d\r\n\r\n" % n),
+                             ("scgi", b"Status: 200\r\nContent-Length: %d\r\n\r\n" % n)):
+                data = head + body
+                for seg in (3000, 1000):
+                    for stream in (0, 1):
+                        lines.append(line(be, 11, stream, "G", "eof", [data[i:i + seg] for i in range(0, len(data), seg)]))
+    return lines
+
+
+def gen_special(ctx):
+    """fields lighttpd interprets itself instead of relaying: every listed X-LIGHTTPD-KBytes-per-second value
+    (negative / beyond 2^53: the KiB conversion must not overflow), per backend kind and client protocol"""
+    lines = []
+    for v in KBPS_VALUES:
+        for be, head in (("proxy", b"HTTP/1.1 200 OK\r\nContent-Length: 2\r\n"), ("scgi", b"Status: 200\r\n"),
+                         ("cgi", b"Content-Type: a/b\r\n")):
+            data = head + b"X-LIGHTTPD-KBytes-per-second: " + v + b"\r\nX-A: b\r\n\r\nok"
+            for ver in (11, 10, 20):
+                lines.append(line(be, ver, ctx.rng.choice([0, 1, 2]), "G", "eof", [data]))
+        data = b"Status: 200\r\nx-lighttpd-kbytes-per-second: " + v + b"\r\n\r\nok"
+        lines.append(line("fcgi", 11, 1, "G", "eof", [fcgi_rec(6, data) + fcgi_rec(6, b"") + fcgi_rec(3, b"\0" * 8)]))
     return lines
 
 
@@ -997,6 +1031,553 @@ def unexplained_disagreements(ctx, name, exe, lines):
                                      "the theorems are about"}, found=False)
 
 
+# ------------------------------------------------------------------ end to end: real server, real sockets
+class ScriptedBackend:
+    """HTTP / SCGI / FastCGI backend on one TCP port.  Per connection: read the request lighttpd sends, take
+    the case id from the request URI (/p/<id>, /s/<id>, /f/<id>) and play the case's script — byte segments
+    separated by pauses, then close (eof), reset (SO_LINGER 0) or stall until released."""
+
+    def __init__(self):
+        self.s = socket.socket()
+        self.s.setsockopt(socket.SOL_SOCKET, socket.SO_REUSEADDR, 1)
+        self.s.bind(("127.0.0.1", 0))
+        self.s.listen(256)
+        self.port = self.s.getsockname()[1]
+        self.scripts, self.played, self.release = {}, {}, {}
+        self.conns = collections.Counter()
+        self.stop = False
+        threading.Thread(target=self.loop, daemon=True).start()
+
+    def add(self, cid, segs, end, gap):
+        self.scripts[cid] = (segs, end, gap)
+        self.played[cid] = threading.Event()
+        self.release[cid] = threading.Event()
+
+    def close(self):
+        self.stop = True
+        for e in self.release.values():
+            e.set()
+        try:
+            self.s.close()
+        except OSError:
+            pass
+
+    def loop(self):
+        while not self.stop:
+            try:
+                c, _ = self.s.accept()
+            except OSError:
+                return
+            threading.Thread(target=self.serve, args=(c,), daemon=True).start()
+
+    @staticmethod
+    def req_complete(buf):
+        if buf[:1] == b"\x01":                         # FastCGI: up to the empty FCGI_STDIN record
+            i = 0
+            while i + 8 <= len(buf):
+                t, n, pad = buf[i + 1], (buf[i + 4] << 8) | buf[i + 5], buf[i + 6]
+                if i + 8 + n + pad > len(buf):
+                    return False
+                if t == 5 and n == 0:
+                    return True
+                i += 8 + n + pad
+            return False
+        if buf[:1].isdigit():                          # SCGI netstring
+            j = buf.find(b":")
+            return j > 0 and len(buf) >= j + 1 + int(buf[:j]) + 1
+        return b"\r\n\r\n" in buf
+
+    def serve(self, c):
+        cid = None
+        try:
+            c.settimeout(5)
+            c.setsockopt(socket.IPPROTO_TCP, socket.TCP_NODELAY, 1)
+            buf = b""
+            while not self.req_complete(buf):
+                d = c.recv(65536)
+                if not d:
+                    return
+                buf += d
+            m = _re.search(rb"/[psf]/([0-9]+)", buf)
+            if not m or int(m.group(1)) not in self.scripts:
+                return
+            cid = int(m.group(1))
+            self.conns[cid] += 1
+            segs, end, gap = self.scripts[cid]
+            for sg in segs:
+                c.sendall(sg)
+                time.sleep(gap)
+            self.played[cid].set()
+            if end == "none":
+                self.release[cid].wait(15)
+            elif end == "rst":
+                c.setsockopt(socket.SOL_SOCKET, socket.SO_LINGER, struct.pack("ii", 1, 0))
+        except (OSError, ValueError):
+            pass
+        finally:
+            if cid is not None:
+                self.played[cid].set()
+            try:
+                c.close()
+            except OSError:
+                pass
+
+
+E2E_CONF = """
+server.stream-response-body = %d
+server.max-keep-alive-requests = 1000
+server.max-keep-alive-idle = 30
+server.max-read-idle = 60
+server.max-write-idle = 60
+server.range-requests = "disable"
+proxy.server = ("/p/" => (("host" => "127.0.0.1", "port" => %d)))
+scgi.server = ("/s/" => (("host" => "127.0.0.1", "port" => %d, "check-local" => "disable")))
+fastcgi.server = ("/f/" => (("host" => "127.0.0.1", "port" => %d, "check-local" => "disable")))
+"""
+PROBE_BODY = b"C10-PROBE-BODY\n"
+E2E_PATH = {"proxy": "/p/", "scgi": "/s/", "fcgi": "/f/"}
+M_ISOLATION = ("after the backend response the client connection is left in a state where the next exchange "
+               "(keep-alive request / another HTTP/2 stream) is not answered intact")
+
+
+def _read_quiet(s, buf, quiet, stop=None, deadline=8.0):
+    """append what arrives on s to buf until the peer closes, or nothing arrived for `quiet` seconds and
+    stop() (if given) holds; returns (buf, closed)"""
+    t_end = time.time() + deadline
+    while time.time() < t_end:
+        r, _, _ = select.select([s], [], [], quiet)
+        if r:
+            try:
+                d = s.recv(65536)
+            except OSError:
+                return buf, True
+            if not d:
+                return buf, True
+            buf += d
+            continue
+        if stop is None or stop():
+            break
+    return buf, False
+
+
+def e2e_h1(port, path, ver, head_req, played, quiet):
+    """one HTTP/1.x exchange; returns the harness-format observation and the isolation verdict"""
+    req = b"%s %s HTTP/1.%d\r\nHost: localhost\r\n%s\r\n" % (
+        b"HEAD" if head_req else b"GET", path.encode(), 1 if ver == 11 else 0,
+        b"Connection: keep-alive\r\n" if ver == 10 else b"")
+    s = socket.create_connection(("127.0.0.1", port), timeout=5)
+    s.setsockopt(socket.IPPROTO_TCP, socket.TCP_NODELAY, 1)
+    iso = None
+    try:
+        s.sendall(req)
+        wire, closed = _read_quiet(s, b"", quiet, played.is_set)
+        cend = "close"
+        if not closed:
+            # is the connection kept alive (response done), or is the response still pending?
+            try:
+                s.sendall(b"GET /probe.txt HTTP/1.1\r\nHost: localhost\r\n\r\n")
+            except OSError:
+                closed = True
+            more, closed = _read_quiet(s, b"", max(quiet, 0.4), lambda: True, 3.0) if not closed else (b"", True)
+            i = more.rfind(b"HTTP/1.1 200 OK\r\n")
+            if i >= 0 and more.endswith(PROBE_BODY):
+                wire += more[:i]                # (late bytes of the first response)
+                cend = "ka"
+            elif closed:
+                wire += more
+            elif more:
+                cend, iso = "ka", M_ISOLATION
+            else:
+                cend = "pend"
+    finally:
+        s.close()
+    return "W:%s end=%s" % (C.hx(wire), cend) if wire else "end=%s" % cend, iso
+
+
+def e2e_h2(port, path, head_req, played, quiet):
+    from .. import e2e
+    h = e2e.H2Conn(port)
+    iso = None
+    try:
+        h.request(1, "HEAD" if head_req else "GET", path)
+
+        def ended(sid):
+            return lambda fr: any(x[2] == sid and ((x[0] in (0, 1) and x[1] & 1) or x[0] == 3) for x in fr)
+        t_end = time.time() + 8
+        while time.time() < t_end and not h.closed:
+            h.pump(quiet, until=ended(1))
+            if ended(1)(h.frames) or played.is_set():
+                break
+        if not ended(1)(h.frames) and not h.closed:
+            h.pump(quiet, until=ended(1))
+        n1 = len(h.frames)
+        # isolation: another stream of the same connection is still served
+        if not h.closed:
+            h.request(3, "GET", "/probe.txt")
+            h.pump(1.5, until=ended(3))
+        frames = list(h.frames)
+    finally:
+        h.close()
+    hp = e2e.Hpack()
+    evs, cont, seen_final, body3, st3, goaway = [], None, False, b"", None, False
+    for k, (t, fl, sid, pl) in enumerate(frames):
+        if t in (1, 9):
+            if t == 1:
+                off, padlen = 0, 0
+                if fl & 8:
+                    padlen, off = pl[0], 1
+                if fl & 0x20:
+                    off += 5
+                cont = [sid, pl[off:len(pl) - padlen], fl & 1]
+            elif cont:
+                cont[1] += pl
+            if fl & 4 and cont:
+                hs = hp.decode(cont[1])
+                if cont[0] == 1 and k < n1 + 64:
+                    st = [v for n, v in hs if n == b":status"]
+                    txt = b"".join(n + b": " + v + CRLF for n, v in hs if not n.startswith(b":"))
+                    if st and 100 <= int(st[0]) < 200 and int(st[0]) != 101:
+                        evs.append("I:%d:%s" % (int(st[0]), C.hx(txt)))
+                    elif st and not seen_final:
+                        seen_final = True
+                        evs.append("H:%d:%s" % (int(st[0]), C.hx(txt)))
+                    else:
+                        evs.append("T:%s" % C.hx(txt))
+                    if cont[2] and not (evs[-1][0] == "T"):
+                        evs.append("E")
+                elif cont[0] == 3:
+                    st3 = [v for n, v in hs if n == b":status"]
+                cont = None
+        elif t == 0:
+            padlen, off = 0, 0
+            if fl & 8:
+                padlen, off = pl[0], 1
+            d = pl[off:len(pl) - padlen]
+            if sid == 1:
+                if d:
+                    evs.append("W:" + C.hx(d))
+                if fl & 1:
+                    evs.append("E")
+            elif sid == 3:
+                body3 += d
+        elif t == 3 and sid == 1:
+            evs.append("R")
+        elif t == 7:
+            goaway = True
+    if st3 != [b"200"] or body3 != PROBE_BODY or goaway:
+        iso = M_ISOLATION
+    cend = "close" if "R" in evs else "ka" if ("E" in evs or any(x[0] == "T" for x in evs)) else "pend"
+    return " ".join(evs + ["end=" + cend]), iso
+
+
+def view(ver, head_req, out):
+    """client-level outcome of a harness-format observation (harness, model or real server)"""
+    o = out.split(" ")
+    evs = [x for x in o if x in ("E", "R") or x[:2] in ("W:", "I:", "H:", "T:")]
+    kv = dict(x.split("=", 1) for x in o if "=" in x and x[:2] not in ("W:", "I:", "H:", "T:"))
+    if ver == 20:
+        cv = client_h2(evs)
+    else:
+        cv = client_h1(b"".join(C.unhx(x[2:]) for x in evs if x[0] == "W"), head_req)
+    if not cv["ok"]:
+        return dict(bad=cv["why"], cend=kv.get("end"))
+    return dict(cend=kv.get("end"), status=cv.get("status"), interims=[s_ for s_, _ in cv.get("interims", [])],
+                fields=by_name(cv.get("fields") or []), trailers=by_name(cv.get("trailers") or []),
+                body=cv.get("body") or b"", complete=cv.get("complete"), rst=bool(cv.get("rst")),
+                framing=cv.get("framing"))
+
+
+def view_diff(a, b):
+    """None if the real server's outcome `a` is the model's outcome `b` (timing-independent part)"""
+    if ("bad" in a) != ("bad" in b):
+        return "client-side syntax: %s vs %s" % (a.get("bad"), b.get("bad"))
+    if "bad" in a:
+        return None
+    for k in ("cend", "status", "interims", "complete", "rst"):
+        if a[k] != b[k]:
+            return "%s: %r vs model %r" % (k, a[k], b[k])
+    fa, fb = dict(a["fields"]), dict(b["fields"])
+    if a["complete"] is True or a["cend"] == "ka":
+        if a["body"] != b["body"]:
+            return "body differs from the model's"
+        ta, tb = dict(a["trailers"]), dict(b["trailers"])
+        if ta != tb:
+            return "trailers differ from the model's"
+    elif not (a["body"].startswith(b["body"]) or b["body"].startswith(a["body"])):
+        return "partial body is not a prefix of the model's"
+    if fa != fb:
+        return "fields differ from the model's: %r vs %r" % (sorted(fa.items())[:6], sorted(fb.items())[:6])
+    return None
+
+
+def coalescings(segs):
+    """every way the kernel may merge adjacent backend writes into one read"""
+    segs = [x for x in segs if x]
+    if len(segs) <= 1:
+        return [segs]
+    out = []
+    for mask in range(1 << (len(segs) - 1)):
+        cur, res = segs[0], []
+        for i in range(1, len(segs)):
+            if mask >> (i - 1) & 1:
+                cur += segs[i]
+            else:
+                res.append(cur)
+                cur = segs[i]
+        res.append(cur)
+        out.append(res)
+    return out
+
+
+E2E_CORE_PROXY = [
+    (b"HTTP/1.1 200 OK\r\nContent-Length: 5\r\nX-A: b\r\n\r\n", b"hello", "complete"),
+    (b"HTTP/1.1 200 OK\r\nContent-Length: 9\r\n\r\n", b"hello", "short of Content-Length"),
+    (b"HTTP/1.1 200 OK\r\nTransfer-Encoding: chunked\r\nTrailer: X-T\r\n\r\n", b"5\r\nhello\r\n0\r\nX-T: v\r\n\r\n", "complete"),
+    (b"HTTP/1.1 200 OK\r\nTransfer-Encoding: chunked\r\n\r\n", b"5\r\nhello\r\n", "cut inside the chunked body"),
+    (b"HTTP/1.1 200 OK\r\nTransfer-Encoding: chunked\r\n\r\n", b"5\r\nhello\r\n0\r\n", "cut inside the trailer section"),
+    (b"HTTP/1.1 200 OK\r\nTransfer-Encoding: chunked\r\n\r\n", b"5\r\nhelloXX3\r\nabc\r\n0\r\n\r\n", "bad chunk framing"),
+    (b"HTTP/1.0 200 OK\r\nX-A: b\r\n\r\n", b"until close", "EOF-delimited"),
+    (b"HTTP/1.1 200 OK\r\nContent-Length: 5x\r\n\r\n", b"hello", "invalid Content-Length"),
+    (b"HTTP/1.1 103 Early Hints\r\nLink: </a>\r\n\r\nHTTP/1.1 200 OK\r\nContent-Length: 2\r\n\r\n", b"ok", "interim"),
+    (b"HTTP/1.1 200 OK\r\nContent-Le", b"", "head cut"),
+    (b"HTTP/1.1 204 No Content\r\nX-A: b\r\n\r\n", b"", "no body"),
+]
+E2E_CORE_CGI = [
+    (b"Status: 201\r\nContent-Length: 5\r\nX-A: b\r\n\r\n", b"hello", "complete"),
+    (b"Content-Length: 9\r\n\r\n", b"hello", "short of Content-Length"),
+    (b"Content-Type: text/plain\r\n\r\n", b"until close", "EOF-delimited"),
+    (b"Status: 200\r\nContent-Ty", b"", "head cut"),
+    (b"no header here\n", b"body", "no head"),
+    # (1xx and final head in one read / one FastCGI record: h2 sends the 1xx while the rest is still unparsed)
+    (b"Status: 103\r\nLink: </a>\r\n\r\nStatus: 200\r\nContent-Encoding: gzip\r\nContent-Length: 2\r\n\r\n", b"ok", "interim"),
+    (b"Status: 102\r\n\r\nStatus: 103\r\nLink: </b>\r\n\r\nContent-Type: text/plain\r\nX-A: b\r\n\r\n", b"done", "two interims"),
+]
+
+
+def gen_e2e(ctx):
+    """cases for the real server: (line in the relay format, gap).  Backend kinds proxy/scgi/fcgi; ends
+    eof/rst/none (a TCP peer has no other); at most 4 segments."""
+    rng = ctx.rng
+    cases = []
+    ends = ("eof", "rst", "none")
+    for be, pool in (("proxy", E2E_CORE_PROXY), ("scgi", E2E_CORE_CGI), ("fcgi", E2E_CORE_CGI)):
+        for head, body, _ in pool:
+            for end in ends:
+                for ver in (11, 10, 20):
+                    for stream in (0, 1, 2):
+                        if ctx.quick and rng.random() < 0.5 and not (end != "none" and stream < 2 and ver != 10):
+                            continue
+                        segs = [head] + ([body[:3], body[3:]] if len(body) > 3 and rng.random() < 0.5 else [body])
+                        if be == "fcgi":
+                            done = rng.random() < 0.6
+                            segs = [fcgi_rec(6, x, rng.choice([0, 3])) for x in segs if x]
+                            if done:
+                                segs.append(fcgi_rec(6, b"") + fcgi_rec(3, b"\0" * 8))
+                        cases.append(line(be, ver, stream, "G", end, segs))
+    n = 150 if ctx.quick else 2500
+    while n > 0:
+        be = rng.choice(["proxy", "proxy", "scgi", "fcgi"])
+        valid = rng.random() < 0.75
+        d = rand_resp(rng, be, valid)
+        data = render(d)
+        if not valid and rng.random() < 0.5 and data:
+            data = corrupt1(data, rng, True)
+        if rng.random() < 0.3 and data:
+            data = data[:rng.randrange(len(data) + 1)]
+        if b"\x00" in data and outside_model(data):
+            data = data.replace(b"\x00", b"\x01")
+        if be == "fcgi":
+            data = fcgi_wrap(rng, data, end=rng.random() < 0.75)
+            if rng.random() < 0.15 and data:
+                data = data[:rng.randrange(len(data) + 1)]
+        segs = rand_split(rng, data, rng.choice([1, 1, 2, 2, 3, 4]))
+        cases.append(line(be, rng.choice([11, 11, 10, 20, 20]), rng.choice([0, 1, 1, 2]),
+                          "H" if rng.random() < 0.08 else "G", rng.choice(["eof", "eof", "rst", "none"]), segs))
+        n -= 1
+    return cases
+
+
+def e2e_parse(l):
+    t = l.split(" ")
+    return t[1], int(t[2]), int(t[3]), t[4] == "H", t[5], [C.unhx(x) for x in t[6:] if x != "-"]
+
+
+def e2e_one(ports, backend, cid, l, gap):
+    be, ver, stream, head_req, end, segs = e2e_parse(l)
+    backend.add(cid, segs, end, gap)
+    path = "%s%d" % (E2E_PATH[be], cid)
+    quiet = max(0.25, 2.5 * gap)
+    try:
+        if ver == 20:
+            out, iso = e2e_h2(ports[stream], path, head_req, backend.played[cid], quiet)
+        else:
+            out, iso = e2e_h1(ports[stream], path, ver, head_req, backend.played[cid], quiet)
+    except OSError as ex:
+        out, iso = "end=clienterror:%s" % type(ex).__name__, None
+    finally:
+        backend.release[cid].set()
+    return out, iso
+
+
+def e2e_expect(lines_):
+    """model outcomes for every coalescing of the backend writes of every case"""
+    var, idx = [], []
+    for k, l in enumerate(lines_):
+        be, ver, stream, head_req, end, segs = e2e_parse(l)
+        for sg in coalescings(segs):
+            var.append(line(be, ver, stream, "H" if head_req else "G", end, sg))
+            idx.append(k)
+    mo, rc, err = C.parallel_lines([C.ltmodel_path(), "beresp"], var)
+    if rc or len(mo) != len(var):
+        return None
+    exp = collections.defaultdict(list)
+    for k, v, o in zip(idx, var, mo):
+        exp[k].append(o)
+    return exp
+
+
+def e2e_judge(l, out, iso, exp):
+    """(oracle verdict, correspondence diff) of one real-server observation"""
+    be, ver, stream, head_req, end, segs = e2e_parse(l)
+    v = oracle(l, out) or iso
+    if v:
+        return v, None
+    a = view(ver, head_req, out)
+    ds = [view_diff(a, view(ver, head_req, m)) for m in exp]
+    if all(ds):
+        return None, ds[0]
+    return None, None
+
+
+def e2e_servers(bd, backend):
+    from .. import e2e
+    srvs = []
+    for mode in (0, 1, 2):
+        srv = e2e.Server(bd, E2E_CONF % (mode, backend.port, backend.port, backend.port),
+                         modules=("mod_proxy", "mod_scgi", "mod_fastcgi"))
+        with open(os.path.join(srv.docroot, "probe.txt"), "wb") as f:
+            f.write(PROBE_BODY)
+        srv.start()
+        srvs.append(srv)
+    return srvs
+
+
+def run_e2e(ctx):
+    """the same property oracle and the same model, against the real lighttpd (mod_proxy, mod_scgi, mod_fastcgi;
+    h1.c and h2.c; real sockets on both sides)"""
+    from concurrent.futures import ThreadPoolExecutor
+    from .. import e2e
+    t0 = time.time()
+    bd, err = e2e.build_server()
+    if bd is None:
+        ctx.broken.append({"kind": "server-build", "names": ["lighttpd"], "log": err[-3000:]})
+        return
+    cases = gen_e2e(ctx)
+    exp = e2e_expect(cases)
+    if exp is None:
+        ctx.broken.append({"kind": "model-run", "names": ["beresp"], "log": "model failed on the e2e cases"})
+        return
+    backend = ScriptedBackend()
+    srvs = e2e_servers(bd, backend)
+    ports = [s.port for s in srvs]
+    gap = 0.06
+    try:
+        with ThreadPoolExecutor(16) as ex:
+            obs = list(ex.map(lambda kl: e2e_one(ports, backend, kl[0], kl[1], gap), enumerate(cases)))
+        # anything suspicious is repeated alone with long pauses: only what persists is reported
+        # (the read boundaries / the order of data and FIN seen by lighttpd depend on scheduling)
+        nret = 0
+        confirmed = collections.Counter()
+        for k, l in enumerate(cases):
+            v, d = e2e_judge(l, obs[k][0], obs[k][1], exp[k])
+            tries = 0
+            sig0 = _re.sub(r"[0-9]+|b'[^']*'", "N", v or d or "")[:70]
+            if (v or d) and confirmed[sig0] >= 3:
+                continue                 # (this kind of failure has been confirmed on three inputs already)
+            while (v or d) and tries < 2 and all(s.alive() for s in srvs):
+                tries += 1
+                nret += 1
+                obs[k] = e2e_one(ports, backend, len(cases) + 3 * k + tries, l, 0.25 * tries)
+                v, d = e2e_judge(l, obs[k][0], obs[k][1], exp[k])
+            if v or d:
+                confirmed[_re.sub(r"[0-9]+|b'[^']*'", "N", v or d)[:70]] += 1
+        dead = [i for i, s in enumerate(srvs) if not s.alive()]
+    finally:
+        for s in srvs:
+            s.stop()
+        backend.close()
+    for i, s in enumerate(srvs):
+        rep = s.sanitizer_report()
+        if rep or i in dead:
+            ctx.violation("crash:e2e-beresp:" + _re.sub(r"0x[0-9a-f]+|[0-9]+", "N", (rep or "")[:200].split("\n")[-1])[:60],
+                          "lighttpd crashed / sanitizer report while relaying backend responses (stream-response-body %d)" % i,
+                          {"property": ctx.pid, "kind": "sanitizer-or-crash", "correspondence": "e2e-beresp",
+                           "stderr": (rep or s.logs())[-4000:]}, found=False)
+            break
+    ndis = nor = 0
+    order = sorted(range(len(cases)), key=lambda k: len(cases[k]))
+    for k in order:
+        l = cases[k]
+        out, iso = obs[k]
+        be, ver, stream, head_req, end, segs = e2e_parse(l)
+        ctx.evaluations += 1
+        a = view(ver, head_req, out)
+        ctx.keys["e2e:%s:%d:%d:%s:%s:%s:%s:%s" % (be, ver, stream, end, a.get("cend"), str(a.get("status"))[:1],
+                                                   a.get("complete"), a.get("framing"))] += 1
+        ctx.dist["e2e:%s:h%d" % (be, ver)] += 1
+        v, d = e2e_judge(l, out, iso, exp[k])
+        rep = {"property": ctx.pid, "correspondence": "e2e-beresp", "input": l, "impl_obs": out[:1500],
+               "model_obs": [m[:600] for m in exp[k][:4]]}
+        if v:
+            nor += 1
+            ctx.violation("oracle:e2e-beresp:" + _re.sub(r"[0-9]+", "N", v)[:70], v,
+                          dict(rep, kind="property-oracle", oracle_verdict=v), found=True)
+        elif d:
+            ndis += 1
+            ctx.violation("corr:e2e-beresp:" + _re.sub(r"[0-9]+|b'[^']*'", "N", d)[:50],
+                          "model/implementation correspondence e2e-beresp broken: " + d,
+                          dict(rep, kind="correspondence", detail=d,
+                               oracle_verdict="accepted by the property oracle"), found=False)
+    for k in order[::max(1, len(order) // 4)]:
+        ctx.sample({"stream": "e2e-beresp", "input": cases[k][:300], "impl": obs[k][0][:300]})
+    ctx.dist["e2e:repeated-with-long-pauses"] = nret
+    ctx.streams.append({"name": "e2e-beresp", "cases": len(cases), "disagreements": ndis, "oracle_hits": nor,
+                        "wall_s": round(time.time() - t0, 2)})
+
+
+def replay_e2e(ctx, rep):
+    from .. import e2e
+    bd, err = e2e.build_server()
+    if bd is None:
+        print("server does not build:", err[-2000:])
+        return 1
+    l = rep["input"]
+    exp = e2e_expect([l])[0]
+    backend = ScriptedBackend()
+    srvs = e2e_servers(bd, backend)
+    try:
+        out, iso = e2e_one([s.port for s in srvs], backend, 1, l, 0.25)
+    finally:
+        for s in srvs:
+            s.stop()
+        backend.close()
+    be, ver, stream, head_req, end, segs = e2e_parse(l)
+    print("input:", be, ver, stream, "HEAD" if head_req else "GET", end, segs)
+    print("impl :", out[:3000])
+    for m in exp:
+        print("model:", m[:3000])
+    v, d = e2e_judge(l, out, iso, exp)
+    print("oracle:", v, "| vs model:", d)
+    crash = [s.sanitizer_report() for s in srvs if s.sanitizer_report()]
+    if crash:
+        print(crash[0][-3000:])
+    if v or d or crash:
+        print("VIOLATION property=%s replay=(replayed)" % ctx.pid)
+        return 1
+    return 0
+
+
+
 def run(ctx):
     exe, err = C.build_harness("h_beresp")
     if exe is None:
@@ -1004,7 +1585,7 @@ def run(ctx):
         return
     rl = gen_relay(ctx)
     ex = gen_exhaustive(ctx)
-    big = gen_big(ctx)
+    big = gen_big(ctx) + gen_special(ctx)
     ctx.dist["relay:random"] = len(rl)
     ctx.dist["relay:exhaustive-splits-and-cuts"] = len(ex)
     ctx.dist["relay:large-bodies"] = len(big)
@@ -1014,6 +1595,8 @@ def run(ctx):
         nd = ctx.differential(name, [exe], "beresp", lines, oracle, classify)
         if nd and ctx.model_ok:
             unexplained_disagreements(ctx, name, exe, lines)
+    if ctx.model_ok:
+        run_e2e(ctx)
     ctx.exhaustive = ("every composition into segments of the head/body boundary, the first and the last "
                       "%d bytes of %d short proxy/CGI responses; every cut point x every end kind "
                       "(eof, reset, error, hangup, stall) x client protocol (1.0, 1.1, h2) x stream-response-body "
@@ -1022,16 +1605,24 @@ def run(ctx):
     ctx.rule = ("distinct = (backend kind, client protocol, streaming mode, method, end kind, #segments class, "
                 "client outcome ka/close/pend, status class, response flags, #interim, client framing) tuples; "
                 "responses from a grammar (70% strictly well-formed) with byte corruptions, truncation at random "
-                "points, random segmentation / FastCGI record packing with padding and STDERR")
+                "points, random segmentation / FastCGI record packing with padding and STDERR; e2e-beresp: (backend "
+                "kind, client protocol, streaming mode, end kind, client end, status class, completeness, client "
+                "framing) tuples observed on the real server")
     ctx.assumptions += [
         "chunk-size lines of 1024 bytes or more, trailer sections beyond max-request-field-size and NUL bytes in "
         "the last-chunk/trailer section are not generated (the C is read-boundary dependent there)",
         "one backend read per generated segment (segments <= 3000 bytes); the socket to the client is always writable",
-        "HTTP/2 is observed as logical frames through the harness stub of the per-stream loop, h2.c is not executed",
+        "in the harness HTTP/2 is observed as logical frames through a stub of the per-stream loop; h2.c is executed "
+        "by the e2e-beresp stream only (real frames, decoded with nghttp2's HPACK)",
+        "e2e-beresp: backend writes are separated by pauses (60 ms; suspicious cases are repeated alone with 250/500 ms) "
+        "and the model outcome of every coalescing of adjacent writes is accepted; only eof/reset/stall ends exist "
+        "over TCP; server.range-requests is disabled (Accept-Ranges is C15's)",
         "authorizer mode, Upgrade, X-Sendfile, local redirects and error handlers are switched off"]
 
 
 def replay_line(ctx, rep):
+    if rep.get("correspondence") == "e2e-beresp":
+        return replay_e2e(ctx, rep)
     line_ = rep["input"]
     exe, err = C.build_harness("h_beresp")
     if exe is None:
